@@ -103,8 +103,17 @@ type sentinel struct {
 
 // genObjectFunc renders `func <fn>(<params>) *code.Object`.
 func genObjectFunc(fn string, o bridgeOut, sents []sentinel) string {
+	return genObjectFuncP(fn, o, sents, false)
+}
+
+// genObjectFuncP: with progParam the constructor takes the program name as a
+// parameter `prog` (the loader harnesses load one text under several names).
+func genObjectFuncP(fn string, o bridgeOut, sents []sentinel, progParam bool) string {
 	var b strings.Builder
 	var params []string
+	if progParam {
+		params = append(params, "prog string")
+	}
 	for _, s := range sents {
 		params = append(params, s.Param+" "+s.Kind)
 	}
@@ -114,8 +123,13 @@ func genObjectFunc(fn string, o bridgeOut, sents []sentinel) string {
 		for _, k := range m.Keys {
 			keys += ", " + strconv.Quote(k)
 		}
-		fmt.Fprintf(&b, "\tm%d := metrics.NewMetric(%q, %q, metrics.Kind(%d), metrics.Type(%d)%s)\n", i, m.Name, m.Program, m.Kind, m.Type, keys)
-		fmt.Fprintf(&b, "\tm%d.Source, m%d.Hidden, m%d.Limit = %q, %v, %d\n", i, i, i, m.Source, m.Hidden, m.Limit)
+		if progParam {
+			fmt.Fprintf(&b, "\tm%d := metrics.NewMetric(%q, prog, metrics.Kind(%d), metrics.Type(%d)%s)\n", i, m.Name, m.Kind, m.Type, keys)
+			fmt.Fprintf(&b, "\tm%d.Source, m%d.Hidden, m%d.Limit = prog+%q, %v, %d\n", i, i, i, strings.TrimPrefix(m.Source, o.Name), m.Hidden, m.Limit)
+		} else {
+			fmt.Fprintf(&b, "\tm%d := metrics.NewMetric(%q, %q, metrics.Kind(%d), metrics.Type(%d)%s)\n", i, m.Name, m.Program, m.Kind, m.Type, keys)
+			fmt.Fprintf(&b, "\tm%d.Source, m%d.Hidden, m%d.Limit = %q, %v, %d\n", i, i, i, m.Source, m.Hidden, m.Limit)
+		}
 		if len(m.Buckets) > 0 {
 			fmt.Fprintf(&b, "\tm%d.Buckets = []datum.Range{", i)
 			for _, r := range m.Buckets {
@@ -181,6 +195,10 @@ func genObjectFunc(fn string, o bridgeOut, sents []sentinel) string {
 	}
 	b.WriteString("},\n\t}\n}\n\n")
 	return b.String()
+}
+
+func genHeaderPkg(pkg string, extraImports ...string) string {
+	return strings.Replace(genHeader(extraImports...), "package vm\n", "package "+pkg+"\n", 1)
 }
 
 func genHeader(extraImports ...string) string {
